@@ -279,6 +279,7 @@ def _mk_endpoint_classes():
             self.send_on_state = None  # state name: the application sends an order from on_state_change(that state)
             self.raise_on_state = None  # set of state names: on_state_change(that state) raises (failing application callback)
             self.send_on_disconnect = False  # the application tries to send an order from on_disconnect
+            self.raise_on_disconnect = False  # on_disconnect raises after recording the report (failing application callback)
             self.disconnect_filter = None  # callable(msg) -> bool: on_message ends the session (Logout + close) itself
 
         async def _gate(self, name):
@@ -316,6 +317,8 @@ def _mk_endpoint_classes():
                     self.ev.append(("disc_send", "accepted"))
                 except Exception as e:  # noqa
                     self.ev.append(("disc_send", type(e).__name__))
+            if self.raise_on_disconnect:
+                raise RuntimeError("application disconnect callback failed")
 
         async def on_logon(self, is_healthy):
             self.n_logon += 1
